@@ -32,6 +32,8 @@ from .repo import AnalysisError, dotted, norm
 # ----------------------------------------------------------------------
 # abstract values
 # ----------------------------------------------------------------------
+from .repo import TOUCHED_NODES as _TOUCHED  # noqa: E402
+
 class AV:
     __slots__ = ("_hc",)
 
@@ -540,6 +542,7 @@ class Interp:
         cfg = cfg or Cfg()
         env = dict(args)
         out = Out()
+        _TOUCHED.add(id(func))
         res = self.exec_block(func.body, [cfg.with_env(env)])
         out.merge(res)
         # falling off the end returns None
